@@ -1,4 +1,6 @@
 import SekaiProofs.Lemmas.Ante
+import Sekai.Gen.App
+import Sekai.Model.App
 /-! # C14 — Frozen tokens cannot move and a weak network accepts only allowed messages
 
 Theorems about `Sekai.Ante` (`TokensWhiteBlack.IsFrozen`, `ValidateFeeRangeDecorator`'s freeze test on fee
@@ -182,5 +184,193 @@ theorem frozen_not_transferred_partial (c : Cfg) (tx : Tx) (s s' : State) (h : a
 example : accepted cfgDef ⟨[⟨"send", .send [("ukex", 7)] 2, 1⟩], [("ukex", 100)], 1⟩ sRich = true ∧
     accepted cfgDef ⟨[⟨"send", .send [("ukex", 7)] 2, 1⟩, ⟨"send", .send [("frozen", 7)] 2, 1⟩], [("ukex", 100)], 1⟩ sRich = false := by
   decide
+
+/-! ### Edits of the freeze lists (enacted `ProposalTokensWhiteBlackChange`; x/tokens/keeper/utils.go, freeze.go)
+
+`addTokens` / `removeTokens` follow the Go loops (append when absent; overwrite the first occurrence with the last
+element and cut the last slot). On duplicate-free lists - the lists of the default genesis are, and both edits keep
+them so (`lists_nodup_preserved`) - an edit changes membership exactly as requested, whatever the argument list looks
+like (repeated tokens, tokens that are not on the list, any order). -/
+
+
+theorem mem_addTokens (o a : List String) (x : String) : x ∈ addTokens o a ↔ x ∈ o ∨ x ∈ a := by
+  unfold addTokens
+  induction a generalizing o with
+  | nil => simp
+  | cons h t ih =>
+    simp only [List.foldl_cons]
+    rw [ih]
+    by_cases hc : o.contains h = true
+    · simp only [hc, if_true, List.mem_cons]
+      have : h ∈ o := by simpa using hc
+      constructor
+      · rintro (h1 | h1); exact Or.inl h1; exact Or.inr (Or.inr h1)
+      · rintro (h1 | h1 | h1); exact Or.inl h1; exact Or.inl (h1 ▸ this); exact Or.inr h1
+    · simp only [hc, Bool.false_eq_true, if_false, List.mem_append, List.mem_cons, List.not_mem_nil, or_false]
+      constructor
+      · rintro ((h1 | h1) | h1); exact Or.inl h1; exact Or.inr (Or.inl h1); exact Or.inr (Or.inr h1)
+      · rintro (h1 | h1 | h1); exact Or.inl (Or.inl h1); exact Or.inl (Or.inr h1); exact Or.inr h1
+
+theorem nodup_addTokens (o a : List String) (h : o.Nodup) : (addTokens o a).Nodup := by
+  unfold addTokens
+  induction a generalizing o with
+  | nil => simpa
+  | cons x t ih =>
+    simp only [List.foldl_cons]
+    apply ih
+    by_cases hc : o.contains x = true
+    · simp only [hc, if_true]; exact h
+    · simp only [hc, Bool.false_eq_true, if_false]
+      have hx : x ∉ o := by simpa using hc
+      rw [List.nodup_append]
+      refine ⟨h, by simp, ?_⟩
+      intro a ha b hb
+      simp at hb
+      subst hb
+      intro e; subst e; exact hx ha
+
+theorem mem_last_dropLast (xs : List String) (l x : String) (h : xs.getLast? = some l) :
+    x ∈ l :: xs.dropLast ↔ x ∈ xs := by
+  have hne : xs ≠ [] := by intro e; subst e; simp at h
+  have hl : xs.getLast hne = l := by
+    have := List.getLast?_eq_some_getLast hne
+    rw [h] at this; exact (Option.some.inj this).symm
+  have := List.dropLast_concat_getLast hne
+  rw [hl] at this
+  conv => rhs; rw [← this]
+  simp only [List.mem_cons, List.mem_append, List.not_mem_nil, or_false]
+  constructor
+  · rintro (h1 | h1); exact Or.inr h1; exact Or.inl h1
+  · rintro (h1 | h1); exact Or.inr h1; exact Or.inl h1
+
+theorem mem_swapRemove (o : List String) (t x : String) (h : o.Nodup) :
+    x ∈ swapRemove o t ↔ x ∈ o ∧ x ≠ t := by
+  induction o with
+  | nil => simp [swapRemove]
+  | cons y ys ih =>
+    have hy : y ∉ ys := (List.nodup_cons.mp h).1
+    have hys : ys.Nodup := (List.nodup_cons.mp h).2
+    unfold swapRemove
+    by_cases e : y = t
+    · subst e
+      simp only [if_true]
+      cases hl : ys.getLast? with
+      | none =>
+        have : ys = [] := by simpa using hl
+        subst this
+        simp
+      | some l =>
+        simp only
+        rw [mem_last_dropLast ys l x hl]
+        constructor
+        · intro hx; exact ⟨List.mem_cons_of_mem _ hx, fun e => hy (e ▸ hx)⟩
+        · rintro ⟨hx, hne⟩
+          rcases List.mem_cons.mp hx with h1 | h1
+          · exact absurd h1 hne
+          · exact h1
+    · simp only [e, if_false, List.mem_cons, ih hys]
+      constructor
+      · rintro (h1 | ⟨h1, h2⟩)
+        · exact ⟨Or.inl h1, h1 ▸ e⟩
+        · exact ⟨Or.inr h1, h2⟩
+      · rintro ⟨h1 | h1, h2⟩
+        · exact Or.inl h1
+        · exact Or.inr ⟨h1, h2⟩
+
+theorem nodup_swapRemove (o : List String) (t : String) (h : o.Nodup) : (swapRemove o t).Nodup := by
+  induction o with
+  | nil => simp [swapRemove]
+  | cons y ys ih =>
+    have hy : y ∉ ys := (List.nodup_cons.mp h).1
+    have hys : ys.Nodup := (List.nodup_cons.mp h).2
+    unfold swapRemove
+    by_cases e : y = t
+    · simp only [e, if_true]
+      cases hl : ys.getLast? with
+      | none => simp
+      | some l =>
+        simp only
+        have hne : ys ≠ [] := by intro e; subst e; simp at hl
+        have hl' : ys.getLast hne = l := by
+          have := List.getLast?_eq_some_getLast hne
+          rw [hl] at this; exact (Option.some.inj this).symm
+        have hcat := List.dropLast_concat_getLast hne
+        rw [hl'] at hcat
+        rw [← hcat, List.nodup_append] at hys
+        refine List.nodup_cons.mpr ⟨?_, hys.1⟩
+        intro hm
+        exact hys.2.2 l hm l (by simp) rfl
+    · simp only [e, if_false]
+      refine List.nodup_cons.mpr ⟨?_, ih hys⟩
+      intro hm
+      exact hy ((mem_swapRemove ys t y hys).mp hm).1
+
+theorem nodup_removeTokens (o r : List String) (h : o.Nodup) : (removeTokens o r).Nodup := by
+  unfold removeTokens
+  induction r generalizing o with
+  | nil => simpa
+  | cons t ts ih => simp only [List.foldl_cons]; exact ih _ (nodup_swapRemove o t h)
+
+theorem mem_removeTokens (o r : List String) (x : String) (h : o.Nodup) :
+    x ∈ removeTokens o r ↔ x ∈ o ∧ x ∉ r := by
+  unfold removeTokens
+  induction r generalizing o with
+  | nil => simp
+  | cons t ts ih =>
+    simp only [List.foldl_cons]
+    rw [ih _ (nodup_swapRemove o t h), mem_swapRemove o t x h]
+    simp only [List.mem_cons, not_or]
+    constructor
+    · rintro ⟨⟨h1, h2⟩, h3⟩; exact ⟨h1, h2, h3⟩
+    · rintro ⟨h1, h2, h3⟩; exact ⟨⟨h1, h2⟩, h3⟩
+
+/-- both freeze lists are duplicate-free -/
+def ListsNodup (c : Cfg) : Prop := c.black.Nodup ∧ c.white.Nodup
+
+theorem lists_nodup_preserved (c : Cfg) (isBlack isAdd : Bool) (toks : List String) (h : ListsNodup c) :
+    ListsNodup (editLists c isBlack isAdd toks) := by
+  obtain ⟨hb, hw⟩ := h
+  cases isBlack <;> cases isAdd <;> simp only [editLists, ListsNodup]
+  · exact ⟨hb, nodup_removeTokens _ _ hw⟩
+  · exact ⟨hb, nodup_addTokens _ _ hw⟩
+  · exact ⟨nodup_removeTokens _ _ hb, hw⟩
+  · exact ⟨nodup_addTokens _ _ hb, hw⟩
+
+/-- **a list edit changes membership exactly as requested**: after an edit a token is on the edited list iff it was
+there or was added, resp. iff it was there and was not removed; the other list is untouched. -/
+theorem list_edit_exact (c : Cfg) (isBlack isAdd : Bool) (toks : List String) (x : String) (h : ListsNodup c) :
+    let c' := editLists c isBlack isAdd toks
+    (x ∈ c'.black ↔ if isBlack then (if isAdd then x ∈ c.black ∨ x ∈ toks else x ∈ c.black ∧ x ∉ toks) else x ∈ c.black) ∧
+    (x ∈ c'.white ↔ if isBlack then x ∈ c.white else (if isAdd then x ∈ c.white ∨ x ∈ toks else x ∈ c.white ∧ x ∉ toks)) := by
+  obtain ⟨hb, hw⟩ := h
+  cases isBlack <;> cases isAdd <;> simp only [editLists, Bool.false_eq_true, if_false, if_true, iff_self, true_and, and_true]
+  · exact mem_removeTokens _ _ _ hw
+  · exact mem_addTokens _ _ _
+  · exact mem_removeTokens _ _ _ hb
+  · exact mem_addTokens _ _ _
+
+/-- a blacklisted token that a removal does not name stays frozen, whatever else the removal lists (repeats included) -/
+theorem unrelated_removal_keeps_frozen (c : Cfg) (toks : List String) (d : String) (h : ListsNodup c)
+    (hon : c.blacklistOn = true) (hd : d ∈ c.black) (hn : d ≠ c.native) (hnot : d ∉ toks) :
+    frozen (editLists c true false toks) d = true := by
+  have hm : d ∈ (editLists c true false toks).black := ((list_edit_exact c true false toks d h).1).mpr ⟨hd, hnot⟩
+  unfold frozen
+  rw [isFrozen_spec]
+  exact ⟨by simpa [editLists] using hn, Or.inl ⟨by simpa [editLists] using hon, hm⟩⟩
+
+example : removeTokens ["frozen", "a", "b", "c"] ["a", "a"] = ["frozen", "c", "b"] := by decide
+example : ListsNodup { black := ["frozen", "a", "b", "c"] } := by simp [ListsNodup]
+/-- the hypothesis is needed: on a list that holds a token twice (reachable only through a genesis file that lists it
+twice) one removal leaves the token on the list -/
+theorem remove_with_duplicates_counterexample : removeTokens ["a", "a"] ["a"] = ["a"] := by decide
+
+/-! ### Application wiring (table `Gen.App`) -/
+
+/-- both filters of this property are in the ante chain exactly once, after the fee-range check (which rejects frozen
+fee tokens) and before signature verification (so they see every transaction that can be delivered) -/
+theorem ante_filter_wiring :
+    Sekai.App.inOrder Sekai.Gen.App.anteChain
+      ["NewValidateFeeRangeDecorator", "NewPoorNetworkManagementDecorator", "NewBlackWhiteTokensCheckDecorator",
+       "NewSigVerificationDecorator"] = true := by decide +kernel
 
 end Sekai.Props.C14
